@@ -617,6 +617,30 @@ enum_due(void)
 			vd_sample("now %s, DUE %ld s ahead: echsx arms %u s (%d alarm calls, %d time() calls, %d job)", tmp, L,
 				  S->x[0].alarm_arg, S->x[0].n_alarm, S->x[0].n_time, S->x[0].n_spawn);
 		}
+		/* DUE equal to now: refusing the request and killing the job at once are both defensible (and a timer
+		 * of 0 s cannot be armed); starting the job with NO limit is not */
+		if (vd_next()) {
+			int st;
+			due_req(req, sizeof(req), now);
+			fmt_utc(tmp, sizeof(tmp), now);
+			vd_desc("execution request with DUE = now = %s; request: %s", tmp, req);
+			for (char *p = vd_sh->desc; *p; p++) {
+				if (*p == '\n') {
+					*p = '|';
+				}
+			}
+			vd_shape("due/now/%s", NOWS[ni].name);
+			st = run_echsx(0, req, (time_t)now);
+			if (st & 0x7f) {
+				vd_viol("echsx-died/due", "echsx killed by signal %d", st & 0x7f);
+			} else if (S->x[0].n_spawn != 0 && (S->x[0].n_alarm == 0 || S->x[0].alarm_arg == 0)) {
+				char sig[200];
+				snprintf(sig, sizeof(sig), "due/now-unbounded/%s", NOWS[ni].name);
+				vd_viol(sig, "job started at its DUE time with no timer armed (%d alarm calls, last argument %u): it runs unbounded", S->x[0].n_alarm, S->x[0].alarm_arg);
+			}
+			vd_nontrivial();
+			vd_count("echsx_runs", 1);
+		}
 		for (size_t pi = 0; pi < sizeof(PAST) / sizeof(*PAST); pi++) {
 			int st;
 
@@ -645,6 +669,84 @@ enum_due(void)
 			}
 			vd_nontrivial();
 			vd_count("echsx_runs", 1);
+		}
+	}
+}
+
+/* ---------------------------------------------------------------- zones: limits given as local times of two zones */
+/* user files with 3-4 events whose DTSTART and DTEND both carry a TZID, the events alternating between two zones in
+ * every order pattern; what echsq hands to the daemon must give every event the same span L (first hop of the chain;
+ * conversions of one zone must not depend on which zone was converted before) */
+static void
+enum_zones(void)
+{
+	static const char *const Z[2] = {"Europe/Berlin", "America/New_York"};
+	static const long LS[] = {10, 90, 3600, 21600, 86400};
+	static char user[4096];
+
+	for (size_t li = 0; li < sizeof(LS) / sizeof(*LS); li++) {
+		const long L = LS[li];
+		for (int n = 3; n <= 4; n++) {
+			for (unsigned pat = 0; pat < (1U << n); pat++) {
+				size_t o;
+				int st, nev = 0, bad = 0;
+
+				if (!vd_next()) {
+					continue;
+				}
+				o = (size_t)snprintf(user, sizeof(user), "BEGIN:VCALENDAR\nVERSION:2.0\n");
+				for (int i = 0; i < n; i++) {
+					/* local 2031-06-10+i 09:00:00 plus L, both written in the event's zone */
+					long long b = rd_utc("20310610T090000Z") + 86400LL * i, e = b + L;
+					char tb[32], te[32];
+					fmt_utc(tb, sizeof(tb), b);
+					fmt_utc(te, sizeof(te), e);
+					tb[15] = te[15] = '\0';	/* drop the Z: local time */
+					o += (size_t)snprintf(user + o, sizeof(user) - o, "BEGIN:VEVENT\nUID:c14-zone-%d\nSUMMARY:true\nDTSTART;TZID=%s:%s\nDTEND;TZID=%s:%s\nEND:VEVENT\n",
+							      i, Z[pat >> i & 1U], tb, Z[pat >> i & 1U], te);
+				}
+				o += (size_t)snprintf(user + o, sizeof(user) - o, "END:VCALENDAR\n");
+				vd_desc("limit %ld s as DTEND on %d events whose DTSTART/DTEND are local times of Berlin (0) / New York (1) in the pattern %x; user file: %s", L, n, pat, user);
+				for (char *p = vd_sh->desc; *p; p++) {
+					if (*p == '\n') {
+						*p = '|';
+					}
+				}
+				vd_shape("zones/%s/%s", pat == 0 || pat == (1U << n) - 1U ? "one-zone" : "two-zones", lclass(L));
+				st = run_chain(user, 0);
+				if (st) {
+					vd_viol("chain-died", "stage %d of the chain died, wait status %#x", S->stage, st);
+					continue;
+				}
+				for (const char *ev = strstr(S->q_text, "BEGIN:VEVENT"); ev != NULL; ev = strstr(ev + 1, "BEGIN:VEVENT")) {
+					char blk[1024], tmp[128], t2[64];
+					const char *end = strstr(ev, "END:VEVENT");
+					size_t bl = end ? (size_t)(end - ev) : strlen(ev);
+					long long got = -2;
+					if (bl >= sizeof(blk)) bl = sizeof(blk) - 1;
+					memcpy(blk, ev, bl);
+					blk[bl] = '\0';
+					nev++;
+					if (prop(blk, "DURATION", tmp, sizeof(tmp))) {
+						got = rd_dur(tmp);
+					} else if (prop(blk, "DTEND", tmp, sizeof(tmp))) {
+						long long e = rd_utc(tmp);
+						long long b = prop(blk, "DTSTART", t2, sizeof(t2)) ? rd_utc(t2) : -1;
+						got = e >= 0 && b >= 0 ? e - b : -1;
+					}
+					if (got != L && !bad) {
+						char sig[200];
+						bad = 1;
+						snprintf(sig, sizeof(sig), "echsq-text/zones/%s/%s/%s", pat == 0 || pat == (1U << n) - 1U ? "one-zone" : "two-zones", lclass(L), ratio(got, L));
+						vd_viol(sig, "event %d of the text echsq hands on spans %lld s, the limit is %ld s: %s", nev, got, L, prop(blk, "UID", tmp, sizeof(tmp)) ? tmp : "?");
+					}
+				}
+				if (nev != n) {
+					vd_viol("echsq-text/zones/count", "%d events in the text echsq hands on, %d in the user file", nev, n);
+				}
+				vd_nontrivial();
+				vd_count("zone_files", 1);
+			}
 		}
 	}
 }
@@ -688,6 +790,8 @@ enumerate(void)
 
 	if (!strcmp(mode, "due")) {
 		enum_due();
+	} else if (!strcmp(mode, "zones")) {
+		enum_zones();
 	} else {
 		enum_chain();
 	}
